@@ -882,6 +882,24 @@ fn run_one_history(out: &mut Out, c: C, h: &[(i64, Option<i64>)], record: bool) 
                 }
             }
         }
+        // ... and so do the hand-overs of a pair, a 3pool (which then also starts a ramp to the amplification it is heading for) and a vault
+        if k_attempt % 2 == 1 && matches!(c, C::Pair | C::Trio | C::Vault) {
+            let cfg: Result<Value, _> = x.w.app.wrap().query_wasm_smart(&t, &json!({"config": {}}));
+            let h = x.w.app.block_info().height;
+            if let (Ok(cfg), Some(f)) = (cfg, m["update_config"].as_object_mut()) {
+                match c {
+                    C::Vault => {
+                        for (k, src) in [("flash_loan_enabled", "flash_loan_enabled"), ("deposit_enabled", "deposit_enabled"), ("withdraw_enabled", "withdraw_enabled"), ("new_vault_fees", "fees")] {
+                            if let Some(cur) = cfg.get(src) { if !cur.is_null() { f.insert(k.to_string(), cur.clone()); } }
+                        }
+                    }
+                    _ => {
+                        for k in ["pool_fees", "feature_toggle"] { if let Some(cur) = cfg.get(k) { if !cur.is_null() { f.insert(k.to_string(), cur.clone()); } } }
+                        if c == C::Trio { if let Some(fa) = cfg.get("future_amp") { f.insert("amp_factor".to_string(), json!({"future_a": fa.clone(), "future_block": h + 20_000})); } }
+                    }
+                }
+            }
+        }
         let before = full_snapshot(&x);
         let app = &mut x.w.app;
         let r = run_catch(|| exec_json(app, &s, &t, &m, &[]), |_e| E_OTHER);
